@@ -1,9 +1,9 @@
 (* Expr.v — arithmetic expressions: the operator-precedence behaviour of the generated LALR automaton
-   (parameterised by the matrix read off the real automaton, Gen.Params.expr_matrix_behaviour) as a
+   (parameterised by the matrix read off the real automaton, Gen.PExpr Gen.PGuards.expr_matrix_behaviour) as a
    shift/reduce parser over expression tokens, and Expression.parse / NegatedExpression.parse as [eval]. *)
 From Coq Require Import String.
 From Coq Require Import List Ascii Bool NArith ZArith QArith.
-Require Import Model.Text Model.ParamTypes Model.Num Model.NumLex Gen.Params.
+Require Import Model.Text Model.ParamTypes Model.Num Model.NumLex Gen.PExpr Gen.PGuards.
 Require Export Model.ExprTypes.
 Import ListNotations.
 
